@@ -23,6 +23,7 @@ use tokio::io::{AsyncReadExt, AsyncWriteExt};
 use crate::net::{Fate, SimIo, SimNet, Tail, WireEvent};
 
 const CA_CERT: &[u8] = include_bytes!("../../certs/ca.cert");
+const OTHER_CA_CERT: &[u8] = include_bytes!("../../certs/other-ca.cert");
 const SERVER_CERT: &[u8] = include_bytes!("../../certs/server.cert");
 const SERVER_KEY: &[u8] = include_bytes!("../../certs/server.key");
 
@@ -64,6 +65,9 @@ pub struct RunCfg {
     pub horizon_s: u64,
     /// close event: at wire datagram index `at`, who closes
     pub close: Option<CloseEvent>,
+    /// the client does not trust the server's CA: the TLS handshake fails with an alert
+    #[serde(default)]
+    pub untrusted_ca: bool,
 }
 
 #[derive(Debug, Clone, Copy, PartialEq, Eq, Serialize, Deserialize)]
@@ -81,7 +85,7 @@ pub struct CloseEvent {
 
 impl RunCfg {
     pub fn new(workload: Workload) -> RunCfg {
-        RunCfg { workload, tiny_windows: false, idle_timeout_ms: 20_000, idle_timeout_server_ms: None, max_segments: 4, qlog: QlogMode::None, horizon_s: 120, close: None }
+        RunCfg { workload, tiny_windows: false, idle_timeout_ms: 20_000, idle_timeout_server_ms: None, max_segments: 4, qlog: QlogMode::None, horizon_s: 120, close: None, untrusted_ca: false }
     }
 }
 
@@ -352,7 +356,12 @@ async fn drive(cfg: RunCfg, prefix: Vec<Fate>, tail: Tail, sink: Arc<Captured>, 
 
     // ---- client ----
     let mut roots = rustls::RootCertStore::empty();
-    roots.add_parsable_certificates(CertificateDer::pem_slice_iter(CA_CERT).map(Result::unwrap));
+    if cfg.untrusted_ca {
+        // trust some other CA only: the server's certificate is rejected (TLS alert)
+        roots.add_parsable_certificates(CertificateDer::pem_slice_iter(OTHER_CA_CERT).map(Result::unwrap));
+    } else {
+        roots.add_parsable_certificates(CertificateDer::pem_slice_iter(CA_CERT).map(Result::unwrap));
+    }
     let mut cb = QuicClient::builder()
         .with_router(router.clone())
         .with_iface_factory(factory.clone())
